@@ -18,6 +18,7 @@ MISTAKES = (
     "return_type", "dead_code_type_error", "comptime_raises", "comptime_expr_raises",
     "entry_has_args", "non_monomorphic_entry", "struct_field_unknown", "overload_no_match",
     "nested_undefined_names", "nested_maybe_undefined_captures", "nested_branch_type_captures",
+    "nested_recursive_body_fails",
 )
 
 
@@ -370,6 +371,16 @@ def plant(b: Body, lines: list[str], env: dict, m: dict) -> list[str]:
                + ["else:"] + [f"    {n} = {('True', '1.5', '(1, 2)')[j % 3]}" for j, n in enumerate(names)]
                + [f"def {nf}(p: int) -> int:", f"    {b.fresh('t')} = ({', '.join(names)})", "    return p",
                   f"{b.fresh('u')} = {nf}(1)"]]
+    elif kind == "nested_recursive_body_fails":
+        # a recursive, non-capturing nested function whose own body is wrong; preferably
+        # named like a module-level function of the same shape
+        same = [c.name for c in b.callees if c.kind == "fn" and c.ret == "int"
+                and [t for _, t in c.params] == ["int"]]
+        nf = ch.pick(same, "shadow_name") if same and ch.draw(4, "shadow") else b.fresh("nf")
+        bad = ("zz = measure(p)", "zz = p + (1, 2)", "zz: NoSuchTy = p",
+               "zz = p.nofield")[ch.draw(4, "nested_bad")]
+        ins = [[f"def {nf}(p: int) -> int:", f"    {bad}", "    if p < 1:", "        return 0",
+                f"    return {nf}(p - 1)", f"{b.fresh('u')} = {nf}(3)"]]
     elif kind == "struct_field_unknown":
         if b.g.structs:
             s = b.g.structs[0]
@@ -456,7 +467,7 @@ class ProgGen:
             src += ["@guppy.comptime", f"def {prefix}ct(x: int) -> int:"] + ind(body + ["return acc"]) + [""]
             defs.append(f"{prefix}ct")
             sigs.append(FnSig(f"{prefix}ct", [("x", "int")], "int", "comptime"))
-        if ch.draw(2, "fam_inthelper") == 0:
+        if ch.draw(2, "fam_inthelper") == 0 or self.params.get("int_helper"):
             # a plain int -> int helper: the shape nested functions may shadow
             src += ["@guppy", f"def {prefix}ih(x: int) -> int:", f"    return x + {ch.draw(5, 'ih_c')}", ""]
             defs.append(f"{prefix}ih")
